@@ -77,20 +77,40 @@ class Check:
         return ok
 
     def build_lean(self, targets):
+        """Builds the model driver first, then the proof modules.  Returns True when the
+        driver is usable (so the search for a concrete failing input can still run when a
+        proof obligation broke); a failed proof module is recorded as a violation."""
         if os.path.exists(RKH):
             self.regen_tables()
-        rc, out = sh(["lake", "build"] + targets, cwd=LEAN)
-        ok = rc == 0
-        self.obligations.append(("build:lake " + " ".join(targets), ok, "" if ok else out[-1500:]))
-        if not ok:
-            self.violation("build:lean", "lake build failed: a proof obligation no longer checks",
-                           {"kind": "obligation", "obligation": "lake build " + " ".join(targets),
-                            "output": out[-4000:]}, found=False)
-        return ok
+        exe = [t for t in targets if t == "rinkmodel"]
+        mods = [t for t in targets if t != "rinkmodel"]
+        exe_ok = True
+        if exe:
+            rc, out = sh(["lake", "build"] + exe, cwd=LEAN)
+            exe_ok = rc == 0
+            self.obligations.append(("build:lake rinkmodel (model driver)", exe_ok, "" if exe_ok else out[-1500:]))
+            if not exe_ok:
+                self.violation("build:lean-driver", "lake build of the model driver failed",
+                               {"kind": "obligation", "obligation": "lake build rinkmodel", "output": out[-4000:]}, found=False)
+        self.proofs_ok = True
+        if mods:
+            rc, out = sh(["lake", "build"] + mods, cwd=LEAN)
+            ok = rc == 0
+            self.proofs_ok = ok
+            self.obligations.append(("build:lake " + " ".join(mods), ok, "" if ok else out[-1500:]))
+            if not ok:
+                errs = [l for l in out.split("\n") if l.startswith("error:")][:5]
+                self.violation("build:lean", "lake build failed: a proof obligation no longer checks: %s" % "; ".join(errs)[:400],
+                               {"kind": "obligation", "obligation": "lake build " + " ".join(mods), "errors": errs,
+                                "output": out[-4000:]}, found=False)
+        return exe_ok
 
     # ---------------------------------------------------------------- audit
     def audit(self, module, theorems, source_dirs=("Model", "Lemmas", "Props", "Spec", "Gen")):
         """#print axioms for every property theorem + forbidden-token scan."""
+        if not getattr(self, "proofs_ok", True):
+            self.obligations.append(("audit:skipped because the proof modules do not build", False, ""))
+            return []
         path = os.path.join(self.work, "audit.lean")
         with open(path, "w") as f:
             f.write("import %s\n" % module)
@@ -281,6 +301,19 @@ def eval_stream(c, gen_sub, independent=True, budget_ms=3000, gen_extra=(), judg
         return None
     rd = lambda n: open(os.path.join(c.work, n), encoding="utf-8", errors="replace").read().split("\n")
     R, I, M = rd("req.txt"), rd("impl.txt"), rd("model.txt")
+    # a `timeout` under a loaded machine is not evidence: re-run those requests alone, one
+    # worker, with a generous budget, and keep the second answer
+    slow = [i for i, a in enumerate(I) if a == "timeout"]
+    c.coverage["timeouts_first_pass"] = len(slow)
+    if slow and independent and len(slow) <= 200:
+        retry = os.path.join(c.work, "retry")
+        os.makedirs(retry, exist_ok=True)
+        open(os.path.join(retry, "req.txt"), "w").write("\n".join(R[i] for i in slow) + "\n")
+        sh([RKH, "eval-run", "--out", retry, "--budget-ms=60000", "--jobs=2", "--independent"], timeout=7200)
+        RI = open(os.path.join(retry, "impl.txt")).read().split("\n")
+        for k, i in enumerate(slow):
+            if k < len(RI) and RI[k]:
+                I[i] = RI[k]
     E = rd("expect.txt") if os.path.exists(os.path.join(c.work, "expect.txt")) and gen_sub == "gen-c01" else None
     AUX = rd("aux.txt") if os.path.exists(os.path.join(c.work, "aux.txt")) and gen_sub != "gen-c01" else None
     n = len(R) - 1 if R and R[-1] == "" else len(R)
